@@ -25,12 +25,19 @@ Reference details that are deliberately NOT asserted:
     (plain OS semantics = what paramiko documents: "seek operations will be undone at the next write").
   * seeks whose resulting position would be negative are clamped to position 0 (local files reject them).
 
+Domain restrictions (not findings): truncate only on handles opened for writing; at most 90 WRITE
+requests per pipelined handle (beyond 100 the C29 finding can block the client); the served files are
+opened unbuffered on the server side (vlib.sftpenv handle_buffering=0) so that a truncate, which the
+server interface performs by path, is seen by later reads through the handle.
+
 Known findings are kept out of the campaign by construction (see EXCLUSIONS): the program
 sanitiser inserts ``seek(0, SEEK_CUR)`` / ``flush()`` at the hazardous transition or drops the op, and
 counts it with ctx.exclude. An exclusion is active only while its finding is listed ``open`` in
-known_findings.json; ``VERIF_C27_NOEXCLUDE=all`` (or a comma list of exclusion names) switches
+known_findings.json / known_findings.d/C27.json (so it disappears by itself when the coordinator flips
+the entry to ``fixed``); ``VERIF_C27_NOEXCLUDE=all`` (or a comma list of exclusion names) switches
 exclusions off for experiments on a repaired scratch tree.
 """
+import functools
 import io
 import os
 
@@ -62,7 +69,7 @@ K_WBUFFER = "buffered-write-not-flushed|(any,buffered,write;read/tell)"
 K_HINT = "readlines-nonpositive-hint|(any,any,readlines(<=0))"
 K_CLOSED = "closed-file-op-succeeds|(any,any,close;tell/seek/flush)"
 K_CLOSED_TRUNC = "truncate-on-closed-file|(any,any,close;truncate)"
-K_APPEND_TRUNC = "append-size-stale-after-truncate|(a,any,truncate;write;tell/read)"
+K_TRUNC_STATE = "truncate-ignores-buffered-state|(any,any,readahead/pending-write/append;truncate)"
 
 EXCLUSIONS = {
     "truncate": K_TRUNCATE,
@@ -71,8 +78,9 @@ EXCLUSIONS = {
     "hint": K_HINT,
     "closed": K_CLOSED,
     "closedtrunc": K_CLOSED_TRUNC,
-    "truncappend": K_APPEND_TRUNC,
+    "truncstate": K_TRUNC_STATE,
 }
+NAME_OF_KEY = dict((v, k) for k, v in EXCLUSIONS.items())
 
 
 def active_exclusions():
@@ -102,95 +110,157 @@ BUFSIZES = [-1, 0, 1, 2, 7, 1024, 8192, 65536]
 READ_KINDS = ("read", "readline", "readlines", "next")
 WRITE_KINDS = ("write", "writelines", "wtext")
 
-ASCII_ALPHABET = b"\n\n\n\r\rab z\x00"
-BIN_ALPHABET = b"\n\n\n\r\rab\x00\xff\xc3\x80"
+ASCII_ALPHABET = b"\na\n\rb\n z\r\x00\n"
+BIN_ALPHABET = b"\na\n\rb\n\x00\xff\r\xc3\x80\n"
 
 
+def _rep(unit, n, pad=0):
+    """n bytes made of repetitions of ``unit`` (+ ``pad`` filler bytes, so that big files have
+    lines of some length instead of thousands of 1-2 byte lines)."""
+    if not unit:
+        return b""
+    unit = unit + b"." * pad
+    return (unit * (n // len(unit) + 1))[:n]
+
+
+def _small(alphabet, max_size):
+    """Short byte strings over ``alphabet`` (repeated characters = weights) from two draws:
+    a length and one big integer whose base-len(alphabet) digits select the characters."""
+    chars = bytes(alphabet)
+    base = len(chars)
+
+    def build(t):
+        n, v = t
+        out = bytearray()
+        for _ in range(n):
+            v, d = divmod(v, base)
+            out.append(chars[d])
+        return bytes(out)
+
+    return st.tuples(st.integers(0, max_size), st.integers(0, base**max_size - 1)).map(build)
+
+
+@functools.lru_cache(maxsize=None)
 def _data(alphabet, big):
-    small = st.lists(st.sampled_from(list(alphabet)), max_size=24).map(bytes)
-
-    def rep(unit, n):
-        if not unit:
-            return b""
-        return (unit * (n // len(unit) + 1))[:n]
+    small = _small(alphabet, 24)
+    rep = _rep
 
     sizes = [st.integers(0, 200), st.integers(0, 5000)]
     if big:
         sizes.append(st.sampled_from([8191, 8192, 8193, 20000, 32767, 32768, 32769, 70000]))
-    return st.one_of(small, small, st.builds(rep, small, st.one_of(*sizes)))
+    return st.one_of(small, small, st.builds(rep, small, st.one_of(*sizes), st.sampled_from([0, 7, 60, 60])))
 
 
-def _ops(alphabet, text_ok, modes):
+# op weights per profile: (read, readline, readlines, next, write, writelines, seek, tell, flush, truncate, close, reopen, wtext)
+PROFILES = {
+    "mixed": (6, 5, 2, 3, 8, 2, 6, 5, 2, 2, 1, 2, 1),
+    "reader": (8, 8, 3, 4, 1, 0, 5, 5, 0, 0, 0, 1, 0),
+    "writer": (2, 1, 0, 0, 10, 3, 6, 4, 3, 3, 0, 1, 1),
+    "readwrite": (6, 6, 1, 2, 8, 1, 3, 4, 1, 1, 0, 0, 1),
+}
+
+
+@functools.lru_cache(maxsize=None)
+def _modes(pool):
+    return st.sampled_from(list(pool))
+
+
+@functools.lru_cache(maxsize=None)
+def _init(alphabet, with_absent, max_init):
+    small = _small(alphabet, 30)
+    return st.one_of(
+        st.sampled_from(
+            [b"line1\nline2\r\nline3\n", b"no newline at the end", b"a\n\nbb\nccc\n\rdddd\neeeee\n"] + ([None, b""] if with_absent else [])
+        ),
+        small,
+        small,
+        st.builds(_rep, small, st.integers(0, 3000), st.sampled_from([0, 0, 7, 60])),
+        st.builds(_rep, small, st.integers(0, max_init), st.sampled_from([7, 60, 60, 500])),
+    )
+
+
+@functools.lru_cache(maxsize=None)
+def _ops(alphabet, text_ok, modes, profile="mixed"):
     data = _data(alphabet, True)
     small = _data(alphabet, False)
-    n_read = st.sampled_from([None, -1, 0, 1, 2, 3, 5, 17, 100, 1023, 1024, 1025, 3000, 8191, 8192, 8193, 40000])
+    n_read = st.sampled_from([None, None, None, -1, 0, 1, 2, 3, 5, 17, 100, 1023, 1024, 1025, 3000, 8191, 8192, 8193, 40000])
     n_line = st.sampled_from([None, None, -1, 0, 1, 2, 3, 5, 100, 9000])
     n_hint = st.sampled_from([None, None, -1, 0, 1, 2, 5, 6, 7, 50, 5000])
     seek = st.one_of(
-        st.tuples(st.just("seek"), st.one_of(st.integers(0, 40), st.integers(0, 6000), st.integers(0, 70000)), st.just(0)),
+        st.tuples(st.just("seek"), st.one_of(st.integers(0, 12), st.integers(0, 40), st.integers(0, 40), st.integers(0, 6000), st.integers(0, 70000)), st.just(0)),
+        st.tuples(st.just("seek"), st.integers(0, 12), st.just(0)),
         st.tuples(st.just("seek"), st.one_of(st.integers(-40, 40), st.integers(-6000, 6000)), st.just(1)),
         st.tuples(st.just("seek"), st.one_of(st.integers(-40, 10), st.integers(-6000, 100)), st.just(2)),
     )
     reopen = st.tuples(st.just("reopen"), modes, st.sampled_from(BUFSIZES), st.booleans())
+    w = PROFILES[profile]
     ops = [
-        (6, st.tuples(st.just("read"), n_read)),
-        (5, st.tuples(st.just("readline"), n_line)),
-        (2, st.tuples(st.just("readlines"), n_hint)),
-        (3, st.tuples(st.just("next"))),
-        (8, st.tuples(st.just("write"), data)),
-        (2, st.tuples(st.just("writelines"), st.lists(small, max_size=5))),
-        (6, seek),
-        (5, st.tuples(st.just("tell"))),
-        (2, st.tuples(st.just("flush"))),
-        (2, st.tuples(st.just("truncate"), st.one_of(st.integers(0, 40), st.integers(0, 9000)))),
-        (1, st.tuples(st.just("close"))),
-        (2, reopen),
+        (w[0], st.tuples(st.just("read"), n_read)),
+        (w[1], st.tuples(st.just("readline"), n_line)),
+        (w[2], st.tuples(st.just("readlines"), n_hint)),
+        (w[3], st.tuples(st.just("next"))),
+        (w[4], st.tuples(st.just("write"), data)),
+        (w[5], st.tuples(st.just("writelines"), st.lists(small, max_size=5))),
+        (w[6], seek),
+        (w[7], st.tuples(st.just("tell"))),
+        (w[8], st.tuples(st.just("flush"))),
+        (w[9], st.tuples(st.just("truncate"), st.one_of(st.integers(0, 40), st.integers(0, 9000)))),
+        (w[10], st.tuples(st.just("close"))),
+        (w[11], reopen),
     ]
     if text_ok:
-        ops.append((1, st.tuples(st.just("wtext"), small)))
+        ops.append((w[12], st.tuples(st.just("wtext"), small)))
     weighted = []
-    for w, s in ops:
-        weighted.extend([s] * w)
-    return st.one_of(*weighted)
+    for n, s in ops:
+        weighted.extend([s] * n)
+    single = st.one_of(*weighted)
+    # bursts: runs of consecutive reads (read-ahead buffer handling) and tight read/write alternations
+    reads = st.one_of(*[s for n, s in ops[:4] for _ in range(max(n, 1))])
+    writes = st.one_of(ops[4][1], ops[4][1], ops[5][1])
+    read_burst = st.lists(reads, min_size=2, max_size=5)
+    mixed_burst = st.lists(st.one_of(reads, reads, writes, writes, ops[7][1], seek), min_size=2, max_size=5)
+    # read(all)/readlines() leave the position at EOF, where every further read is trivially empty:
+    # most of the time they are followed by a seek back into the file
+    back = st.tuples(st.just("seek"), st.integers(0, 12), st.just(0))
+
+    def follow(o, b, use):
+        terminal = (o[0] == "read" and (o[1] is None or o[1] < 0 or o[1] >= 3000)) or (o[0] == "readlines" and (o[1] is None or o[1] <= 0 or o[1] >= 5000))
+        return [o, b] if (terminal and use) else [o]
+
+    one = st.builds(follow, single, back, st.sampled_from([True, True, True, False]))
+    return st.one_of(one, one, one, one, read_burst, mixed_burst)
 
 
 @st.composite
 def case_st(draw, max_steps=40, max_init=20000):
     binary_only = draw(st.booleans())
+    profile = draw(st.sampled_from(["mixed", "mixed", "reader", "writer", "readwrite", "readwrite"]))
+    pool = {"mixed": WEIGHTED_MODES, "reader": ["r", "r+", "r+", "a+", "w+"], "writer": WEIGHTED_MODES + ["w", "wx", "w+x"], "readwrite": ["r+", "r+", "w+", "a+"]}[profile]
     if binary_only:
-        modes = st.sampled_from([m + "b" for m in WEIGHTED_MODES])
+        modes = _modes(tuple(m + "b" for m in pool))
         alphabet = BIN_ALPHABET
     else:
-        modes = st.sampled_from(WEIGHTED_MODES + [m + "b" for m in WEIGHTED_MODES])
+        modes = _modes(tuple(pool) + tuple(m + "b" for m in pool))
         alphabet = ASCII_ALPHABET
-    small = st.lists(st.sampled_from(list(alphabet)), max_size=30).map(bytes)
-
-    def rep(unit, n):
-        if not unit:
-            return b""
-        return (unit * (n // len(unit) + 1))[:n]
-
     mode = draw(modes)
     if "x" in mode and draw(st.integers(0, 3)) > 0:
-        init_st = st.none()
+        init = None
     else:
-        init_st = None
-    init = draw(
-        init_st
-        if init_st is not None
-        else st.one_of(
-            st.sampled_from([None, b"", b"line1\nline2\r\nline3\n", b"no newline at the end"]),
-            small,
-            small,
-            st.builds(rep, small, st.integers(0, 3000)),
-            st.builds(rep, small, st.integers(0, max_init)),
-        )
-    )
+        init = draw(_init(alphabet, profile not in ("reader", "readwrite"), max_init))
     bufsize = draw(st.sampled_from(BUFSIZES))
     pipelined = draw(st.booleans())
     nmin = draw(st.sampled_from([1, 1, 4, 8, 16, 30]))
-    ops = draw(st.lists(_ops(alphabet, not binary_only, modes), min_size=min(nmin, max_steps), max_size=max_steps))
-    return {"init": init, "mode": mode, "bufsize": bufsize, "pipelined": pipelined, "ops": [list(o) for o in ops]}
+    dense_tell = draw(st.integers(0, 2)) == 0  # a tell() after every step: position bookkeeping is checked densely
+    if dense_tell:
+        max_steps = max_steps // 2
+    groups = draw(st.lists(_ops(alphabet, not binary_only, modes, profile), min_size=min(nmin, max_steps) // 2 + 1, max_size=max_steps))
+    ops = [list(o) for g in groups for o in g][:max_steps]
+    if dense_tell:
+        ops = [x for o in ops for x in (o, ["tell"])]
+    elif draw(st.booleans()):
+        ops.append(["tell"])
+        ops = ops[-40:]
+    return {"init": init, "mode": mode, "bufsize": bufsize, "pipelined": pipelined, "ops": ops}
 
 
 # --------------------------------------------------------------------------- sanitiser
@@ -208,17 +278,29 @@ def sanitise(case, excl, ctx=None):
             ctx.exclude(EXCLUSIONS[name])
 
     out = []
-    mode, bufsize = case["mode"], case["bufsize"]
+    mode, bufsize, pipelined = case["mode"], case["bufsize"], case["pipelined"]
     closed = False
     ra = False  # remote may hold read-ahead
     wb = False  # remote may hold buffered writes
+    nreq = 0  # WRITE requests sent on this handle
     for op in case["ops"]:
         k = op[0]
         if k == "reopen":
-            mode, bufsize = op[1], op[2]
+            mode, bufsize, pipelined = op[1], op[2], bool(op[3])
             closed = ra = wb = False
+            nreq = 0
             out.append(op)
             continue
+        if k in WRITE_KINDS and pipelined and not closed:
+            # domain: a pipelined file with more than 100 outstanding WRITE requests whose replies were
+            # consumed by another request blocks forever in SFTPFile._write (the C29 finding); stay below
+            items = op[1] if k == "writelines" else [op[1]]
+            n = sum(1 + len(x) // 32768 for x in items if x)
+            if nreq + n > 90:
+                if ctx is not None:
+                    ctx.count("dropped:pipelined-write-over-90-requests")
+                continue
+            nreq += n
         if k == "truncate" and not closed and not ("+" in mode or "w" in mode or "a" in mode):
             # domain: truncate only on writable handles (what FSETSTAT on a read-only handle does is
             # decided by the server interface implementation, i.e. the harness, not by paramiko)
@@ -231,9 +313,14 @@ def sanitise(case, excl, ctx=None):
         if k == "truncate" and "truncate" in excl:
             note("truncate")
             continue
-        if k == "truncate" and not closed and "a" in mode and "truncappend" in excl:
-            note("truncappend")
-            continue
+        if k == "truncate" and not closed and "truncstate" in excl:
+            if "a" in mode:
+                note("truncstate")
+                continue
+            if ra or wb:
+                note("truncstate")
+                out.append(["seek", 0, 1])
+                ra = wb = False
         if closed and (k in ("tell", "seek", "flush") or (k == "writelines" and not op[1])) and "closed" in excl:
             note("closed")
             continue
@@ -246,7 +333,7 @@ def sanitise(case, excl, ctx=None):
                 out.append(["seek", 0, 1])
                 ra = False
                 wb = False
-            if (k in READ_KINDS or k in ("tell", "truncate")) and wb and "wbuffer" in excl:
+            if (k in READ_KINDS or k == "tell") and wb and "wbuffer" in excl:
                 note("wbuffer")
                 out.append(["flush"])
                 wb = False
@@ -377,8 +464,12 @@ class Runner:
 
     WATCHDOG_S = 20.0  # a blocked client call surfaces as an exception instead of hanging the harness
 
-    def __init__(self, ctx):
+    def __init__(self, ctx, attribute=None):
         self.ctx = ctx
+        # hazards (root-cause names of known findings) are attributed in the replay tier and, during
+        # exploration, only for findings that are still excluded by construction: a divergence seen
+        # while an exclusion is off (finding repaired / experiment) is reported under its raw pattern.
+        self.attribute = set(EXCLUSIONS) if attribute is None else set(attribute)
         self.base = os.path.join(ctx.tmpdir(), "c27-%d" % os.getpid())
         self.root = os.path.join(self.base, "root")
         self.twin = os.path.join(self.base, "twin")
@@ -391,7 +482,9 @@ class Runner:
         if self.env is None:
             from vlib.sftpenv import SftpEnv
 
-            self.env = SftpEnv(self.root)
+            # unbuffered server-side files: with the stub-server style buffered handle a truncate (done by
+            # path) would leave stale data in the *server's* Python file buffer - a harness artefact
+            self.env = SftpEnv(self.root, handle_buffering=0)
             self.env.client_chan.settimeout(self.WATCHDOG_S)
         return self.env
 
@@ -558,7 +651,7 @@ class _CaseState:
         if not remote_closed:
             if k in WRITE_KINDS and rb and rf.writable() and _payload_len(op):
                 hz = K_READAHEAD
-            elif (k in READ_KINDS or k in ("tell", "truncate")) and wb:
+            elif (k in READ_KINDS or k == "tell") and wb:
                 hz = K_WBUFFER
         elif k in ("tell", "seek", "flush") or (k == "writelines" and not op[1]):
             hz = K_CLOSED
@@ -566,7 +659,10 @@ class _CaseState:
             hz = K_CLOSED_TRUNC
         if k == "readlines" and op[1] is not None and op[1] <= 0 and not remote_closed and rf.readable():
             hz = K_HINT
-        if hz is not None and self.hazard is None:
+        hz_trunc = None
+        if k == "truncate" and not remote_closed and rf.writable() and (rb or wb or "a" in self.mode):
+            hz_trunc = K_TRUNC_STATE
+        if hz is not None and self.hazard is None and NAME_OF_KEY[hz] in self.r.attribute:
             self.hazard = hz
         # ---- perform ----------------------------------------------------------
         if k == "read":
@@ -626,16 +722,16 @@ class _CaseState:
                 self._fail("value", label, "step %s%s: remote %s, local %s" % (k, _short_args(op), _short(rr), _short(lr)))
                 return
         # truncate: attribute content loss to the set_file_attr defect (shared with C31)
-        if k == "truncate" and not r_bad and self.hazard is None and not self.pipelined:
+        if k == "truncate" and not r_bad and self.hazard is None and not self.pipelined and "truncate" in self.r.attribute:
             _call(lf.flush)
             a, b = self._disk(self.rpath), self._disk(self.lpath)
             if a != b and a is not None and b is not None and len(a) == len(b) and not any(a) and not rf._wbuffer.tell():
                 self.hazard = K_TRUNCATE
                 self._fail("truncate", label, "after truncate(%r): served file %s, local twin %s" % (op[1], _short(a), _short(b)))
                 return
-        if k == "truncate" and not r_bad and not remote_closed and self.hazard is None and "a" in self.mode:
-            # from here on the remote's idea of the end of the file (append bookkeeping) may be stale
-            self.hazard = K_APPEND_TRUNC
+        if hz_trunc is not None and not r_bad and self.hazard is None and "truncstate" in self.r.attribute:
+            # from here on the remote's buffers / append bookkeeping may be out of step with the file
+            self.hazard = hz_trunc
         if not r_bad and ((k == "flush" and not self.pipelined) or k == "close") and not (k == "flush" and remote_closed):
             if k == "flush":
                 _call(lf.flush)
@@ -737,20 +833,20 @@ def _first_diff(a, b):
 
 
 def run(ctx):
-    ctx.set_budget(60, 780)
+    ctx.set_budget(70, 880)
     excl = active_exclusions()
     ctx.note("exclusions_active", sorted(excl))
     ctx.assume("twin of an append-mode file is opened unbuffered (OS append semantics, as paramiko documents)")
     ctx.assume("files opened without 'b' only see ASCII data (paramiko decodes readline results as UTF-8)")
     ctx.assume("readlines(hint>0): both CPython stopping rules (total >= hint, total > hint) are accepted")
     ctx.assume("seeks to a negative resulting position are clamped to 0")
-    runner = Runner(ctx)
+    runner = Runner(ctx, attribute=excl)
 
     def body(raw):
         runner.execute(sanitise(raw, excl, ctx))
 
     try:
-        ctx.explore(case_st(), body, ctx.scale(1200, 9000))
+        ctx.explore(case_st(), body, ctx.scale(1000, 8000))
     finally:
         runner.close()
 
